@@ -647,7 +647,15 @@ def both(tag, cases, bins, r=None):
         terms.append(tl)
         metas.append(fxs)
     flat = [t for tl in terms if tl for (_, _, t) in tl]
-    vals = vf.coq_eval(tag, PRE, flat, shards=min(vf.NCPU, max(1, len(flat))), timeout=3000) if flat else []
+    vals = []
+    if flat:
+        try:
+            vals = vf.coq_eval(tag, PRE, flat, shards=min(vf.NCPU, max(1, len(flat))), timeout=3000)
+        except vf.Broken as e:
+            # a coqc child killed by the environment (memory pressure on a loaded machine) is retried once, less parallel
+            if "model evaluation failed" not in str(e) or "Error" in str(e):
+                raise
+            vals = vf.coq_eval(tag + "retry", PRE, flat, shards=min(4, max(1, len(flat))), timeout=6000)
     vi = iter(vals)
     results = []      # per case: list of (scenario, impl_line, model_line)
     for c, im, tl, fxs in zip(cases, impl, terms, metas):
